@@ -16,3 +16,7 @@ verif_file!(c08_prime);
 mod replay {
     include!(env!("IPA_VERIF_REPLAY"));
 }
+verif_file!(c08_gf);
+verif_file!(c08_ba);
+verif_file!(c09_serde);
+verif_file!(scratch);
